@@ -638,6 +638,7 @@ def check(s):
     # C17.6 vector fields of the four classic-control environments (cheap: part of every run, not only of the thorough tier)
     check_vector_fields(s)
     check_integration(s)
+    check_model_constants(s)
     # C17.15 configuration wiring: a weight / range / flag given to the constructor is the one the like-named attribute holds
     from .util import ctor_wiring
     n15 = 0
@@ -1081,6 +1082,36 @@ def _run_block(gb, stmts, env, gdc, gfn, gci):
 def check_thorough(s):
     """(the vector-field rules moved into the quick tier; nothing extra here)"""
     return None
+
+
+def check_model_constants(s):
+    """C17.18: what every MuJoCo environment derives from the model once, in its constructor, the way Gymnasium's MujocoEnv does:
+    dt = model.opt.timestep * frame_skip (the rewards divide displacements by it), init_qpos / init_qvel = the default MjData's qpos /
+    qvel (the reset law of C17.8 is `init_q* + noise`), the MJX model = put_model of that same model."""
+    self_ = ("param", "self")
+    for cls in MUJOCO:
+        b = s.builder(inline=set())
+        nz = Normalizer(b)
+        loc = s.loc(cls, "__init__")
+        seen = set()
+        for p in live(s.paths(b, cls, "__init__")):
+            a = p.self_attrs
+            mm = a.get("mujoco_model")
+            key_ = (a.get("dt"), a.get("init_qpos"), a.get("init_qvel"), a.get("model"))
+            if key_ in seen or mm is None:
+                continue
+            seen.add(key_)
+            bind = {"M": mm, "self_frame_skip": a.get("frame_skip", NONE), "mujoco": ("global", "mujoco")}
+            s.eq("C17.18", f"{cls}.__init__.dt", nz, a.get("dt", NONE), s.ref(b, "jnp.array(M.opt.timestep * self_frame_skip)", bind), "dt == model timestep * frame_skip", loc, key="dt",
+                 necessary_for="velocity rewards (displacement / dt) equal the reference's")
+            for q in ("qpos", "qvel"):
+                v = a.get("init_" + q, NONE)
+                reads = {x[2] for x in walk(v) if isinstance(x, tuple) and x and x[0] == "attr" and x[2] in ("qpos", "qvel")}
+                data_of_model = any(isinstance(x, tuple) and x and x[0] == "call" and x[1] == ("global", "mujoco.MjData") and x[2] == (mm,) for x in walk(v))
+                s.ob("C17.18", f"{cls}.__init__.init_{q}", reads == {q} and data_of_model, f"init_{q} is the default MjData(model).{q}", loc, key=f"init-{q}", detail=show(v, maxlen=160),
+                     necessary_for="the reset law is the reference's: the model's default configuration plus noise")
+            s.eq("C17.18", f"{cls}.__init__.model", nz, a.get("model", NONE), s.ref(b, "mujoco.mjx.put_model(M)", bind), "the MJX model is put_model of the parsed model", loc, key="mjx-model")
+    s.floor("C17.18", 44)
 
 
 def check_integration(s):
